@@ -21,7 +21,7 @@ fn perms(items: &[u8], k: usize, cur: &mut Vec<u8>, out: &mut Vec<Vec<u8>>) {
 pub fn order(thorough: bool) -> Report {
     let maxn = if thorough { 5 } else { 4 };
     let mut r = Report::new(
-        "every labelled DAG (all subsets of the n(n-1) directed pairs that are acyclic) on up to N nodes x every non-empty ordered selection of roots: the real create_dependency_graph + get_dependencies (real petgraph) returns exactly roots + transitive dependencies, each once, each after all of its dependencies; a dependency on an unknown id is an error; non-trivial = graphs with at least one edge",
+        "every labelled DAG (all subsets of the n(n-1) directed pairs that are acyclic) on up to N nodes (handed over in id order or in a permuted order) x every non-empty ordered selection of roots: the real create_dependency_graph + get_dependencies (real petgraph) returns exactly roots + transitive dependencies, each once, each after all of its dependencies; a dependency on an unknown id is an error; non-trivial = graphs with at least one edge",
         &format!("N <= {maxn} nodes"),
     );
     for n in 1..=maxn {
@@ -35,7 +35,9 @@ pub fn order(thorough: bool) -> Report {
                 let mut q: Vec<usize> = (0..n).filter(|i| indeg[*i] == 0).collect(); let mut seen = 0;
                 while let Some(x) = q.pop() { seen += 1; for d in &nodes[x].deps { indeg[*d as usize] -= 1; if indeg[*d as usize] == 0 { q.push(*d as usize); } } }
                 if seen != n { continue; }
-                let graph = match libcnb_package_create(nodes.clone()) { Ok(g) => g, Err(e) => { r.violation("create", "create_dependency_graph failed on a complete DAG", format!("{nodes:?}"), "Ok".into(), e); continue; } };
+                // the nodes are handed over in a rotated-and-reversed order on odd masks: ids are labels, not positions
+                let declared: Vec<N> = if mask % 2 == 1 { let mut v = nodes.clone(); v.reverse(); v.rotate_left(1 % n); v } else { nodes.clone() };
+                let graph = match libcnb_package_create(declared.clone()) { Ok(g) => g, Err(e) => { r.violation("create", "create_dependency_graph failed on a complete DAG", format!("{declared:?}"), "Ok".into(), e); continue; } };
                 let ids: Vec<u8> = (0..n as u8).collect();
                 let mut sels = vec![];
                 for k in 1..=n.min(3) { perms(&ids, k, &mut vec![], &mut sels); }
@@ -50,7 +52,7 @@ pub fn order(thorough: bool) -> Report {
                     let set: BTreeSet<u8> = got.iter().cloned().collect();
                     let mut ok = set == reach && got.len() == set.len();
                     for (pos, x) in got.iter().enumerate() { for d in &nodes[*x as usize].deps { if !got[..pos].contains(d) { ok = false; } } }
-                    if !ok { r.violation("build_order", "order is not exactly roots + transitive dependencies, each once, dependencies first", format!("nodes={nodes:?} roots={sel:?}"), format!("set {reach:?}, deps first"), format!("{got:?}")); }
+                    if !ok { r.violation("build_order", "order is not exactly roots + transitive dependencies, each once, dependencies first", format!("nodes (in declaration order)={declared:?} roots={sel:?}"), format!("set {reach:?}, deps first"), format!("{got:?}")); }
                 }
             }
         }
@@ -132,5 +134,48 @@ pub fn workspace(thorough: bool) -> Report {
         if build_libcnb_buildpacks_dependency_graph(t.path()).is_ok() { r.violation("workspace_missing_dependency", "a libcnb: dependency on a buildpack that does not exist is an error", "bp0 -> [docker://img/x, libcnb:demo/ghost]".into(), "Err".into(), "Ok".into()); }
     }
     r.samples.push("bp0 -> [docker://.., libcnb:demo/bp1], bp1 -> [../vendor/.., libcnb:demo/bp2]; roots [bp0] -> [bp2, bp1, bp0]".into());
+    r
+}
+
+// C13 bounded stand-in, command level: the real `cargo libcnb package` on composite-only workspaces (no compilation) - the order in which
+// buildpacks are packaged is read from the "[i/n] Building <id>" lines; a wrong order also makes packaging fail (missing dependency path).
+pub fn command(_thorough: bool) -> Report {
+    use std::fs; use std::process::Command;
+    let mut r = Report::new(
+        "the real `cargo libcnb package` (libcnb-cargo built from /repo, offline) on workspaces of composite buildpacks: a chain top -> mid -> base and a diamond top -> {l, r} -> base, with the roles assigned to the directory names in EVERY permutation (so no directory walk order happens to be a dependency order), invoked from the workspace root and from the top buildpack's directory: exit 0, every buildpack packaged exactly once, each after all of its dependencies, exactly the selected buildpacks and their dependencies; non-trivial = all",
+        "6 + 24 role assignments x 2 invocation directories",
+    );
+    let pers = std::path::Path::new(env!("CARGO_MANIFEST_DIR")).join("target/c15"); fs::create_dir_all(&pers).unwrap();
+    let st = Command::new("cargo").args(["build", "--offline", "-p", "libcnb-cargo", "--target-dir"]).arg(pers.join("cargo-libcnb")).current_dir("/repo").env("CARGO_NET_OFFLINE", "true").output().unwrap();
+    let tool = pers.join("cargo-libcnb/debug/cargo-libcnb");
+    if !st.status.success() || !tool.exists() { r.violation("harness", "libcnb-cargo does not build", String::new(), "built".into(), String::from_utf8_lossy(&st.stderr).chars().rev().take(400).collect::<String>().chars().rev().collect()); return r; }
+    let cargo_bin = String::from_utf8_lossy(&Command::new("sh").args(["-c", "command -v cargo"]).output().unwrap().stdout).trim().to_string();
+    // shapes: role -> dependencies (roles by index; role 0 is the top)
+    let shapes: Vec<(&str, Vec<Vec<usize>>)> = vec![("chain", vec![vec![1], vec![2], vec![]]), ("diamond", vec![vec![1, 2], vec![3], vec![3], vec![]])];
+    for (shape, deps) in &shapes {
+        let n = deps.len(); let names: Vec<String> = (0..n).map(|i| format!("{}", (b'a' + i as u8) as char)).collect();
+        let ids: Vec<u8> = (0..n as u8).collect(); let mut perms_v = vec![]; perms(&ids, n, &mut vec![], &mut perms_v);
+        for perm in perms_v { for from_top in [false, true] {
+            r.evaluations += 1; r.nontrivial += 1;
+            let t = tempfile::tempdir().unwrap(); let root = t.path().canonicalize().unwrap();
+            fs::write(root.join("Cargo.toml"), "[workspace]\nresolver = \"2\"\nmembers = []\n").unwrap(); fs::write(root.join(".ignore"), "packaged/\n").unwrap();
+            // role i lives in directory names[perm[i]] and has id demo/<that name>
+            let dir_of = |role: usize| names[perm[role] as usize].clone();
+            for role in 0..n {
+                let d = root.join("bps").join(dir_of(role)); fs::create_dir_all(&d).unwrap();
+                fs::write(d.join("buildpack.toml"), format!("api = \"0.10\"\n[buildpack]\nid = \"demo/{}\"\nversion = \"0.0.1\"\n[[order]]\n[[order.group]]\nid = \"x/y\"\nversion = \"1.0.0\"\n", dir_of(role))).unwrap();
+                fs::write(d.join("package.toml"), format!("[buildpack]\nuri = \".\"\n{}", deps[role].iter().map(|x| format!("[[dependencies]]\nuri = \"libcnb:demo/{}\"\n", dir_of(*x))).collect::<String>())).unwrap();
+            }
+            let cwd = if from_top { root.join("bps").join(dir_of(0)) } else { root.clone() };
+            let out = Command::new(&tool).args(["libcnb", "package", "--target", "x86_64-unknown-linux-gnu", "--no-cross-compile-assistance"]).current_dir(&cwd).env("CARGO_NET_OFFLINE", "true").env("CARGO", &cargo_bin).output().unwrap();
+            let err = String::from_utf8_lossy(&out.stderr).to_string();
+            let order: Vec<String> = err.lines().filter(|l| l.contains("] Building demo/")).filter_map(|l| l.split("Building demo/").nth(1)).map(|x| x.split_whitespace().next().unwrap_or("").to_string()).collect();
+            let input = format!("{shape}: roles (0 = top) in directories {:?}, dependencies by role {deps:?}, invoked from {}", (0..n).map(dir_of).collect::<Vec<_>>(), if from_top { "the top buildpack's directory" } else { "the workspace root" });
+            let mut ok = out.status.success() && order.len() == n && (0..n).all(|role| order.iter().filter(|x| **x == dir_of(role)).count() == 1);
+            if ok { for role in 0..n { let pos = order.iter().position(|x| *x == dir_of(role)).unwrap(); for d in &deps[role] { if order.iter().position(|x| *x == dir_of(*d)).map(|p| p > pos).unwrap_or(true) { ok = false; } } } }
+            if !ok { r.violation("command_order", "every selected buildpack and dependency is packaged exactly once, each after all of its dependencies", input, "exit 0, a dependency order".into(), format!("exit {:?}, order {order:?}; {}", out.status.code(), err.lines().rev().find(|l| l.contains('❌')).unwrap_or(""))); }
+        } }
+    }
+    r.samples.push("chain with top in c/, mid in a/, base in b/: order b, a, c".into());
     r
 }
